@@ -114,3 +114,162 @@ def check_pipes(pipes, tol=1e-9):
         if d:
             bad.append((name, d))
     return len(pipes), nscore, bad
+
+
+# --------------------------------------------------------------------------------------------
+# the whole program on a PDB text (`Model/Program.lean`: parser, read_pdb, top-up, set-up pipeline, scoring)
+# --------------------------------------------------------------------------------------------
+def program_request(text, options, rp="-"):
+    lines = text.split("\n")
+    if lines and lines[-1] == "":
+        lines.pop()
+    # readlines() keeps the newline on every line but possibly the last; the model gets the lines with it (the parser slices by column)
+    raw = [l + "\n" for l in lines]
+    if not text.endswith("\n") and raw:
+        raw[-1] = raw[-1][:-1]
+    ch = getattr(options, "chains", None)
+    return "pipe pdb %s %s %s %s %s default %s" % (
+        rp, "1" if getattr(options, "protonate_all", False) else "0", to_arg(options), "1" if getattr(options, "keep_protons", False) else "0",
+        ",".join(hx(c) for c in ch) if ch else "-", ",".join(hx(l) for l in raw) or "-")
+
+
+def run_program(text, optargs):
+    """the real program on a text under a recorder: (error name or None, options, [(conf name, export_ext, records)] in the order of
+    conformation_names, rp) - None when the run is outside the model"""
+    import io
+    import propka.run
+    from . import scoring_common as SC
+    rec = SC.Recorder()
+    mol, err = None, None
+    with rec:
+        try:
+            mol = propka.run.single("prog.pdb", optargs=list(optargs), stream=io.StringIO(text), write_pka=False)
+        except (ValueError, IndexError) as e:
+            err = type(e).__name__
+    if err is not None:
+        from propka.lib import loadOptions
+        return err, loadOptions(list(optargs) + ["prog.pdb"]), [], "-"
+    if rec.pipes_skipped or len(rec.pipes) != len(mol.conformation_names):
+        return None
+    if [p[0] for p in rec.pipes] != list(mol.conformation_names):
+        return None
+    if not all(p[7] for p in rec.pipes):
+        return None
+    return None, mol.options, [(p[0], p[5], p[6]) for p in rec.pipes], rec.pipes[0][2] if rec.pipes else "-"
+
+
+def check_program(cases, tol=1e-9):
+    """cases: [(tag, text, optargs)]; returns (n compared, n conformations, n errors agreed, n outside, [(tag, diffs)])"""
+    reqs, todo, outside = [], [], 0
+    for tag, text, optargs in cases:
+        if any(ord(c) > 255 for c in text):
+            outside += 1
+            continue
+        r = run_program(text, optargs)
+        if r is None:
+            outside += 1
+            continue
+        err, options, confs, rp = r
+        reqs.append(program_request(text, options, rp))
+        todo.append((tag, err, confs))
+    if not reqs:
+        return 0, 0, 0, outside, []
+    outs = common.driver_batch(reqs)
+    bad, nconf, nerr = [], 0, 0
+    for (tag, err, confs), resp in zip(todo, outs):
+        if err is not None or resp.startswith("err:"):
+            if resp != "err:%s" % err:
+                bad.append((tag, ["the program raised %s, the model answered %s" % (err, resp[:60])]))
+            else:
+                nerr += 1
+            continue
+        if resp in ("bad-op", "bad-params"):
+            bad.append((tag, ["the model answered " + resp]))
+            continue
+        parts = resp.split("&")
+        names = [x.split("@", 1)[0] for x in parts]
+        if names != [c[0] for c in confs]:
+            bad.append((tag, ["conformations %r, model %r" % ([c[0] for c in confs], names)]))
+            continue
+        for (name, ext, real), part in zip(confs, parts):
+            body = part.split("@", 1)[1]
+            nconf += 1
+            if body == "valueerror":
+                bad.append((tag, ["%s: the model's set-up raised" % name]))
+                break
+            f = body.split("#")
+            ra = ext[0].split(";") if ext[0] != "-" else []
+            ma = f[0].split(";") if f[0] != "-" else []
+            rg = ext[1].split(";") if ext[1] != "-" else []
+            mg = f[1].split(";") if f[1] != "-" else []
+            d = diff_lists("atom", AF, ra, ma, lambda i: unhex(ra[i].split("|")[1]) + " " + ra[i].split("|")[7] + unhex(ra[i].split("|")[8]))
+            d += diff_lists("group", GF, rg, mg, lambda i: unhex(rg[i].split("|")[2]))
+            if not d:
+                d = compare(real, parse_model(f[2]), tol)[:4]
+            if d:
+                bad.append((tag, ["%s: %s" % (name, x) for x in d[:3]]))
+                break
+    return len(reqs), nconf, nerr, outside, bad
+
+
+MODELLED_OPTIONS = {"-k", "--keep-protons", "--protonate-all", "-c", "--chain", "--titrate_only", "-i", "-d", "--display-coupled-residues", "-q", "--quiet"}
+
+
+def in_model(optargs):
+    """the options the program model knows (or that do not enter a conformation's records)"""
+    skip = False
+    for a in optargs:
+        if skip:
+            skip = False
+            continue
+        if a in ("-c", "--chain", "--titrate_only", "-i"):
+            skip = True
+            continue
+        if a.startswith("--titrate_only=") or a.startswith("--chain="):
+            continue
+        if a not in MODELLED_OPTIONS:
+            return False
+    return True
+
+
+def program_tie(ctx, what, extra=()):
+    """the program-level correspondence as an obligation of a check: a sample of the texts the check itself ran through the real
+    program (observe.OFFERED) plus `extra`, each run again under a recorder and through `Program.run` of the compiled model"""
+    import glob
+    import os
+    from . import observe
+    seen, cases = set(), []
+    for name, text, args in list(extra) + list(observe.OFFERED):
+        key = (hash(text), tuple(args))
+        if key in seen or not in_model(args) or len(text) > (160000 if ctx.quick() else 10 ** 7):
+            continue
+        seen.add(key)
+        cases.append((name + " " + " ".join(args), text, list(args)))
+    limit = 12 if ctx.quick() else 150
+    if len(cases) > limit:
+        step = len(cases) / float(limit)
+        cases = [cases[int(i * step)] for i in range(limit)]
+    # two shipped structures always take part (one with a ligand and alternate locations when the tier allows)
+    base = ["1FTJ-Chain-A", "3SGB-subset"] if ctx.quick() else ["1FTJ-Chain-A", "3SGB-subset", "1HPX", "4DFR", "conf-alt-AB-mutant"]
+    for b in base:
+        f = "/repo/tests/pdb/%s.pdb" % b
+        if os.path.exists(f):
+            cases.append((b, open(f).read(), []))
+    if not getattr(ctx, "driver_ok", True):
+        ctx.oblige("correspondence: Lean program model = real program", False, "driver not built")
+        return
+    n, nconf, nerr, outside, bad = check_program(cases)
+    ctx.count("program: PDB texts run through the real program and through Program.run", n)
+    ctx.count("program: conformations compared (atoms, hydrogens, groups, records)", nconf)
+    ctx.count("program: rejected inputs on which both agree (error class)", nerr)
+    ctx.count("program: texts outside the model (other parameter files, non-latin-1 text)", outside)
+    ctx.count("program: texts with options -k / --protonate-all / -c / --titrate_only",
+              sum(1 for c in cases if any(a in ("-k", "--protonate-all", "-c", "--titrate_only") or a.startswith("--titrate_only") for a in c[2])))
+    ctx.oblige("correspondence: the program as one Lean function (Program.run: parser, read_pdb, top-up, bonding, SYBYL typing, protonation, "
+               "group extraction and set-up, sort_atoms, covalent coupling, scoring) = the real program from the PDB text on %d texts of %s "
+               "(%d conformations: every atom incl. built hydrogens bit for bit, every group, every determinant and pKa to 1e-9; %d rejected "
+               "inputs with the same error class)" % (n, what, nconf, nerr),
+               not bad, "; ".join("%s: %s" % (t[:60], "; ".join(d[:2])) for t, d in bad[:2])[:700])
+    for t, d in bad[:1]:
+        case = next(c for c in cases if c[0] == t)
+        ctx.program_bad = dict(tag=t, diffs=d[:4], pdb=case[1] if len(case[1]) < 400000 else None, args=case[2])
